@@ -80,7 +80,7 @@ Definition start (strict : bool) (code : Z) : G := mkG strict code None [] [].
 Definition dispatch (fn : Z) (a : sexp) : sexp :=
   match fn with
   | 1%Z => e_res e_str (format_error (d_err (d_nth a 0)) (d_str (d_nth a 1)))
-  | 2%Z => e_str (err_str (d_err a))
+  | 2%Z => L [A 0%Z; e_str (err_str (d_err a))]
   | 3%Z => e_res (e_opt e_str) (err_context (d_err a))
   | 4%Z =>
     let '(g, d, ev) := run_hist (start (d_bool (d_nth a 0)) (d_Z (d_nth a 1))) O (d_list d_op (d_nth a 2)) in
